@@ -1255,7 +1255,10 @@ func c15sRun(ctx *vh.Ctx) error {
 	// the family's share of the budget; its own generator stream, so that the cases of the mapping
 	// family do not depend on how many cases were run here
 	rng := ctx.Rng.Fork()
-	deadline := ctx.Start.Add(ctx.Budget * 30 / 100)
+	deadline := time.Now().Add(ctx.Budget * 30 / 100)
+	if lim := ctx.Start.Add(ctx.Budget * 42 / 100); deadline.After(lim) {
+		deadline = lim
+	}
 	for i := 0; i < n && time.Now().Before(deadline); i++ {
 		c := c15sGenCase(rng)
 		if c == nil {
